@@ -5,10 +5,12 @@
 import VK.Model.Codec
 import VK.Model.Transfers
 import VK.Model.Clean
+import VK.Model.Validate
 open Lean VK VK.Codec
 
 def getSTVCfg (j : Json) : D STVCfg := do
-  let m ← getNat (fieldD j "m" (jNat 1))
+  let mI ← getInt (fieldD j "m" (jNat 1))
+  let m := mI.toNat   -- m ≤ 0 is rejected by the model exactly like m = 0
   let quota ← getStr (fieldD j "quota" (.str "droop"))
   let sim ← getBool (fieldD j "simultaneous" (.bool true))
   let tb ← getTB (fieldD j "tiebreak" .null)
@@ -239,6 +241,26 @@ def handle (j : Json) : D Json := do
     let p ← getProfile (← field j "profile")
     let nc ← getCands (← field j "noncands")
     pure (jOutcome jProfile (removeNoncands p nc))
+  | "gen_init" => do
+    let b := fun k => getBool (fieldD j k (.bool false))
+    let a : GenArgs := {
+      hasCandidates := ← b "has_candidates", hasSlates := ← b "has_slates",
+      hasIntervals := ← b "has_intervals", hasCohesion := ← b "has_cohesion", hasProps := ← b "has_props",
+      propSum8 := ← getRat (fieldD j "prop_sum8" (.str "1")),
+      propBlocs := ← getCands (fieldD j "prop_blocs" .null),
+      intervalBlocs := ← getCands (fieldD j "interval_blocs" .null),
+      cohesionBlocs := ← getCands (fieldD j "cohesion_blocs" .null),
+      cohesionSums8 := ← getList getRat (fieldD j "cohesion_sums8" .null) }
+    pure (jOutcome (fun (_ : Unit) => Json.null) (genInit a))
+  | "combine_check" => do
+    let cs ← getList getCands (← field j "cand_sets")
+    let s ← getRat (← field j "prop_sum8")
+    pure (jOutcome (fun (_ : Unit) => Json.null) (combineCheck cs s))
+  | "pv_validate" => do
+    let p ← getProfile (← field j "profile")
+    let m ← getInt (← field j "m")
+    let tb ← getTB (fieldD j "tiebreak" .null)
+    pure (jOutcome (fun (_ : Unit) => Json.null) (pluralityVetoValidate p m tb))
   | "pairwise" => do
     let p ← getProfile (← field j "profile")
     let d := pairwiseDict p
